@@ -123,7 +123,7 @@ HOT_FUNCTIONS = frozenset({
     "should_complete", "get_checkpoint_result", "fetch_paginated_operations", "_completed_operation_ids",
     "_is_inside_completed_context", "start_replay_if_history_has_completed_operations", "raise_if_orphaned",
     "_leave_replay_if_history_is_passed", "is_replaying", "replay", "_execute_item_in_child_context", "stop_checkpointing",
-    "check_result_status", "process",
+    "check_result_status", "process", "run_suspend_decision", "shutdown",
 })
 
 
